@@ -74,7 +74,10 @@ def gen_case(seed, idx, exh_k=None):
                 rid = rnd.randrange(rid)
             ops.append(("add", rid, nm, w, off))
         elif k == "cluster":
-            ops.append(("cluster", rnd.choice(names) if rnd.random() < .9 else BAD)); depth += 1
+            cn = rnd.choice(names) if rnd.random() < .9 else BAD
+            if cn != BAD and rnd2.random() < .25:
+                cn = rnd2.choice(["0", "1", "2", "3"])      # a cluster called "1" is not the index 1
+            ops.append(("cluster", cn)); depth += 1
         elif k == "index":
             ops.append(("index", rnd.randint(0, 3) if rnd.random() < .9 else BAD)); depth += 1
         elif k == "exit":
